@@ -272,7 +272,8 @@ def main():
     ap.add_argument('--out', required=True)
     a = ap.parse_args()
     import concepts as C
-    assert os.path.realpath(C.__file__).startswith(os.path.realpath(os.environ.get('VERIF_REPO', '/repo')))
+    if not os.path.realpath(C.__file__).startswith(os.path.realpath(os.environ.get('VERIF_REPO', '/repo'))):
+        raise SystemExit('wrong copy of concepts imported: ' + C.__file__)
     stats = {'behaviours': 0, 'events': 0, 'nontrivial': 0, 'samples': []}
     if a.tier == 'quick':
         shapes = [(1, 1), (1, 2), (2, 1), (2, 2), (1, 3), (3, 1), (2, 3), (3, 2)]
